@@ -987,7 +987,7 @@ func (f pcFamily) ops() []string {
 // added layer consumes >= 1 byte may also point backwards or at itself.
 func (g pcGen) genFamily(allowSetError bool, allowNoAdd bool) pcFamily {
 	rng := g.rng
-	n := 1 + rng.Intn(5)
+	n := 1 + rng.Intn(7)
 	perm := rng.Perm(len(pcRegistered))
 	f := pcFamily{table: map[int]pcScript{}}
 	for i := 0; i < n; i++ {
@@ -1014,7 +1014,7 @@ func (g pcGen) genFamily(allowSetError bool, allowNoAdd bool) pcFamily {
 				if rng.Intn(4) == 0 {
 					t = typePool[rng.Intn(len(typePool))]
 				}
-				l := pcLspec{typ: t, clen: []int{0, 1, 1, 2, 2, 3, 5, 99999}[rng.Intn(8)], pmode: 'r'}
+				l := pcLspec{typ: t, clen: []int{0, 1, 1, 1, 2, 2, 2, 3, 3, 5, 99999}[rng.Intn(11)], pmode: 'r'}
 				if !shrinking {
 					switch rng.Intn(10) {
 					case 0:
@@ -1064,6 +1064,9 @@ func (g pcGen) genFamily(allowSetError bool, allowNoAdd bool) pcFamily {
 					var cands []int
 					for j := i + 1; j < len(f.ids); j++ {
 						cands = append(cands, f.ids[j])
+					}
+					if i+1 < len(f.ids) && rng.Intn(10) < 6 {
+						return pcTerm{kind: 'n', next: f.ids[i+1]} // long chains: the lazy machine stops in the middle
 					}
 					if rng.Intn(8) == 0 {
 						cands = append(cands, pcUnregistered, pcNoDecoder, 0)
@@ -1120,7 +1123,7 @@ func (g pcGen) genData(allowEmpty bool) []byte {
 	case r < 6:
 		n = 1
 	default:
-		n = 1 + rng.Intn(14)
+		n = 1 + rng.Intn(24)
 	}
 	b := make([]byte, n)
 	rng.Read(b)
@@ -1130,6 +1133,9 @@ func (g pcGen) genData(allowEmpty bool) []byte {
 func (g pcGen) genAccessor(f pcFamily) string {
 	rng := g.rng
 	pickType := func() int {
+		if len(f.ids) > 0 && rng.Intn(2) == 0 {
+			return f.ids[rng.Intn(pcMin(len(f.ids), 3))] // an early layer: the lazy packet stops there
+		}
 		switch r := rng.Intn(10); {
 		case r < 7 && len(f.types) > 0:
 			return f.types[rng.Intn(len(f.types))]
